@@ -5,6 +5,7 @@ import os
 from .. import alpha
 from .. import destruct
 from .. import foldform
+from .. import forward
 from .. import inline
 from .. import tree as T
 from .. import unroll
@@ -81,6 +82,13 @@ class Ctx:
         for crate, prog in (("lib", self.lib), ("bin", self.bin)):
             for fn, m in alpha.normalise_program(prog, ref.get(crate, {}).get("binders", {})).items():
                 self.alpha[("cli::" if crate == "bin" else "") + fn] = m
+        # new pure locals (a named sub-expression) are read through (sa/forward.py)
+        self.forwarded = {}
+        for crate, prog in (("lib", self.lib), ("bin", self.bin)):
+            if not facts[crate].get("_forwarded_done"):
+                facts[crate]["_forwarded"] = forward.forward_program(prog, ref.get(crate, {}).get("binders", {}))
+                facts[crate]["_forwarded_done"] = True
+            self.forwarded.update(facts[crate].get("_forwarded") or {})
 
     def spec(self, name):
         with open(os.path.join(VERIF, "spec", name)) as f:
@@ -127,7 +135,8 @@ DEPENDS = {
             ("c14", ["C14.R8"], "the seam formatters are asked about the seams: removed positions are shifted by what was removed before")],
     "C14": [("c12", ["C12.R4", "C12.R5"], "whitespace changes stay at the borders: head/tail pair indices and sorted block ranges"),
             ("c04", ["C04.R2"], "whitespace changes stay at the borders: formatter ranges exist only at removed positions")],
-    "C15": [("c16", ["C16.R5"], "highlighted text equal to the text of the region: nothing rewrites or trims the listed text"),
+    "C15": [("c17", ["C17.R1b"], "the Ready items are the same in the plain and in the full listing: the ready list does not depend on the pending flag"),
+            ("c16", ["C16.R5"], "highlighted text equal to the text of the region: nothing rewrites or trims the listed text"),
             ("c16", ["C16.R1", "C16.R7"], "same first and last line numbers: both list forms render the same line map, and a line is what ends in '\\n'")],
     "C16": [("c20", ["C20.R3"], "at the command line --list-json selects the JSON form for --list and for --list-all")],
     "C17": [("c03", ["C03.R4", "C03.R6"], "pending regions are built by the same strategies as ready ones: first available strategy, extents")],
